@@ -62,8 +62,7 @@ def k1_invs(power):
         k = v.k
         d = v0.density[k + v0.density_offset]
         return {
-            'locals': c.And(v._path == v0.path[k], v._density == (d if power == 1 else d * d) if False else
-                            v._density == d),
+            'locals': c.And(v._path == v0.path[k], v._density == d),
             'done': c.Forall(0, wn, lambda w: v.tau[v0.layer, w] == v0.tau[v0.layer, w]
                              + c.Sum(v0.startK, k + 1, lambda j: k1_term(c, v0, j, w, power))),
             'todo': c.Forall(wn, v0.ngrid, lambda w: v.tau[v0.layer, w] == v0.tau[v0.layer, w]
@@ -94,3 +93,61 @@ _K1_BOUNDS = [dict(rows_sigma=3, cols_sigma=2, rows_tau=3, cols_tau=2, startK=0,
 K1 = Unit(['C01', 'C03', 'C13'], 'taurex.contributions.contribution:contribute_tau', _k1_params, pre=k1_pre,
           post=k1_post(1), frame=['tau'], invariants=k1_invs(1), bounds=_K1_BOUNDS, gen=_k1_gen,
           doc='K1: tau[layer,w] += sum_k sigma[k+layer,w]*path[k]*density[k+offset]; nothing else written')
+
+
+KCIA = Unit(['C03', 'C01'], 'taurex.contributions.cia:contribute_cia', _k1_params, pre=k1_pre, post=k1_post(2),
+            frame=['tau'], invariants=k1_invs(2), bounds=_K1_BOUNDS, gen=_k1_gen,
+            doc='CIA kernel: as K1 with density squared')
+
+
+# ---------------------------------------------------------------- Contribution.contribute -> K1
+def _cc_params(c):
+    n, g = c.int('nlayers_'), c.int('ngrid_')
+    rs, cs = c.int('rows_sigma'), c.int('cols_sigma')
+    rt, ct = c.int('rows_tau'), c.int('cols_tau')
+    return dict(self=ObjSpec('Contribution', sigma_xsec=c.array('sigma', (rs, cs)), _nlayers=n, _ngrid=g),
+                model=None, start_layer=c.int('startK'), end_layer=c.int('endK'),
+                density_offset=c.int('density_offset'), layer=c.int('layer'),
+                density=c.array('density', (c.int('len_density'),)), tau=c.array('tau', (rt, ct)),
+                path_length=c.array('path', (c.int('len_path'),)))
+
+
+class _K1View:
+    """adapter: present Contribution.contribute's arguments under K1's parameter names"""
+
+    def __init__(self, v):
+        self.startK, self.endK, self.density_offset = v.start_layer, v.end_layer, v.density_offset
+        self.sigma, self.density, self.path = v.self.sigma_xsec, v.density, v.path_length
+        self.nlayers, self.ngrid, self.layer, self.tau = v.self._nlayers, v.self._ngrid, v.layer, v.tau
+
+
+def cc_pre(c, v):
+    return k1_pre(c, _K1View(v))
+
+
+def cc_post(c, v0, v1, r):
+    return k1_post(1)(c, _K1View(v0), _K1View(v1), r)
+
+
+def _cc_native(c, p):
+    import numpy as np
+    from taurex.contributions.contribution import Contribution
+    o = Contribution.__new__(Contribution)
+    o.sigma_xsec = np.array(p['self']['sigma_xsec'], dtype=float)
+    o._nlayers, o._ngrid = p['self']['_nlayers'], p['self']['_ngrid']
+    o.debug = lambda *a, **k: None
+    o.contribute(None, p['start_layer'], p['end_layer'], p['density_offset'], p['layer'], p['density'], p['tau'],
+                 path_length=p['path_length'])
+    return None, p
+
+
+def _cc_gen(rng):
+    d = _k1_gen(rng)
+    d.update(nlayers_=d['nlayers'], ngrid_=d['ngrid'])
+    return d
+
+
+CC = Unit(['C01', 'C03'], 'taurex.contributions.contribution:Contribution.contribute', _cc_params, pre=cc_pre,
+          post=cc_post, frame=['tau'], native=_cc_native, gen=_cc_gen,
+          bounds=[dict(b, nlayers_=b['nlayers'], ngrid_=b['ngrid']) for b in _K1_BOUNDS],
+          doc='K2 refinement: base contribute adds K1 with sigma = self.sigma_xsec, ngrid = self._ngrid')
